@@ -63,6 +63,12 @@ func VerifyFunc(w *World, spec *FuncSpec, prop string, safetyAll bool) (res *Fun
 		facts = append(facts, f, x.refFacts(st, v))
 		x.inputs = append(x.inputs, inputVar{p.Name(), p.Type(), v})
 	}
+	if fn.Signature.Recv() != nil && len(fn.Params) > 0 {
+		if _, isPtr := fn.Params[0].Type().Underlying().(*types.Pointer); isPtr {
+			facts = append(facts, not(eq(fr.env[fn.Params[0]].One(), "0")))
+			x.assume1("method receivers are non-nil")
+		}
+	}
 	for _, g := range spec.GhostParams {
 		gs, err := x.specSort(g.Type)
 		if err != nil {
